@@ -125,7 +125,6 @@ func c08Setup() error {
 		c08.logbuf.cond = sync.NewCond(&c08.logbuf.mu)
 		casket.Quiet = true
 		casket.TrapSignals()
-		c08.portCur = 20000 + (os.Getpid()*37)%9000
 		// the SIGUSR1 handler reloads through the loader that loaded the Casketfile
 		casket.RegisterCasketfileLoader("verifc08", casket.LoaderFunc(func(string) (casket.Input, error) {
 			c08.mu.Lock()
@@ -164,7 +163,7 @@ func c08Setup() error {
 	os.MkdirAll(filepath.Join(dir, "O", "secret"), 0o755)
 	os.WriteFile(filepath.Join(dir, "O", "secret", "file.txt"), []byte("classified"), 0o644)
 	os.WriteFile(filepath.Join(dir, "O", "plain.txt"), []byte(strings.Repeat("plain text that compresses well. ", 100)), 0o644)
-	c08.p3 = c08FreePort()
+	c08.p3 = c08BusyPort.reserve(false) // held (locked and bound) for the whole run
 	ln, err := net.Listen("tcp", fmt.Sprintf("127.0.0.1:%d", c08.p3))
 	if err != nil {
 		return err
@@ -180,24 +179,14 @@ func c08Teardown() {
 		c08.busy.Close()
 		c08.busy = nil
 	}
+	c08BusyPort.release()
+	c08Ports.release()
 	os.RemoveAll(c08.dir)
 }
 
-// a port below the ephemeral range that is free right now
-func c08FreePort() int {
-	for i := 0; i < 20000; i++ {
-		c08.portCur++
-		if c08.portCur >= 32000 {
-			c08.portCur = 20000
-		}
-		ln, err := net.Listen("tcp", fmt.Sprintf("127.0.0.1:%d", c08.portCur))
-		if err == nil {
-			ln.Close()
-			return c08.portCur
-		}
-	}
-	panic("no free port")
-}
+var c08Ports, c08BusyPort verifPorts
+
+func c08FreePort() int { return c08Ports.reserve(false) }
 
 func c08Config(kind string, p [4]int) (string, bool) {
 	site := func(pi int, marker string, extra ...string) string {
@@ -488,6 +477,7 @@ func c08Eval(f []string) (string, []string) {
 	c08.htFile = filepath.Join(c08.dir, "O", fmt.Sprintf("htpasswd-%d", c08.caseNo)) // a path no earlier case has used
 	defer os.Remove(c08.htFile)
 	var p [4]int
+	c08Ports.release()
 	p[1], p[2], p[3] = c08FreePort(), c08FreePort(), c08.p3
 	tags := map[string]bool{}
 	var steps []string
